@@ -48,6 +48,31 @@ type GhostField struct {
 
 type GhostParam struct{ Name, Type string }
 
+// GhostMap: `ghostmap c *node[K, V] . field := EXPR` sets the ghost field of EVERY object c.
+type GhostMap struct {
+	Var, Type, Field string
+	RHS              SExpr
+	Src              string
+}
+
+func parseGhostMap(s string) (*GhostMap, error) {
+	i := strings.Index(s, ":=")
+	if i < 0 {
+		return nil, fmt.Errorf("ghostmap needs :=")
+	}
+	lhs := strings.TrimSpace(s[:i])
+	dot := strings.LastIndex(lhs, " . ")
+	sp := strings.Index(lhs, " ")
+	if dot < 0 || sp < 0 || sp >= dot {
+		return nil, fmt.Errorf("ghostmap: expected `c TYPE . field := EXPR`")
+	}
+	e, err := parseSpec(strings.TrimSpace(s[i+2:]))
+	if err != nil {
+		return nil, err
+	}
+	return &GhostMap{Var: lhs[:sp], Type: strings.TrimSpace(lhs[sp:dot]), Field: strings.TrimSpace(lhs[dot+3:]), RHS: e, Src: s}, nil
+}
+
 type Dispatch struct {
 	Callee string
 	Ord    int
@@ -115,6 +140,7 @@ type Anchored struct {
 	Ord    int
 	Kind   string // ghost, assert, assume, havoc
 	Havoc  []SExpr
+	GhostMap *GhostMap
 	Ghost  *GhostUpd
 	E      SExpr
 	Src    string
@@ -268,13 +294,16 @@ func (ps *PkgSpec) parseFile(file, data string) error {
 				return errf("bad anchored clause")
 			}
 			head := strings.Fields(rest[:ci])
-			if len(head) != 2 || head[0] != "call" {
-				return errf("anchor must be `call NAME[k]`")
+			if len(head) != 2 || (head[0] != "call" && head[0] != "assign") {
+				return errf("anchor must be `call NAME[k]` or `assign NAME[k]`")
 			}
 			an := &Anchored{When: kw, Callee: head[1]}
 			if bi := strings.Index(head[1], "["); bi >= 0 {
 				an.Callee = head[1][:bi]
 				an.Ord, _ = strconv.Atoi(strings.Trim(head[1][bi:], "[]"))
+			}
+			if head[0] == "assign" {
+				an.Callee = "=" + an.Callee
 			}
 			body := strings.TrimSpace(rest[ci+1:])
 			switch {
@@ -284,6 +313,12 @@ func (ps *PkgSpec) parseFile(file, data string) error {
 					return errf("%v", err)
 				}
 				an.Kind, an.Ghost, an.Src = "ghost", g, body
+			case strings.HasPrefix(body, "ghostmap "):
+				gm, err := parseGhostMap(strings.TrimSpace(body[9:]))
+				if err != nil {
+					return errf("%v", err)
+				}
+				an.Kind, an.GhostMap, an.Src = "ghostmap", gm, body
 			case strings.HasPrefix(body, "havoc "):
 				an.Kind, an.Src = "havoc", body
 				for _, part := range splitTop(strings.TrimSpace(body[6:]), ',') {
